@@ -7,7 +7,13 @@ for mod in ("Layout", "OutMap"):
     r = tlc.run_ok(mod, mod)
     print(mod, "assumptions ok")
 specs = sorted(f[:-4] for f in os.listdir(tlc.SPEC_DIR) if f.endswith(".tla"))
-for s in specs:
+proofs = [s for s in specs if "EXTENDS" in open(os.path.join(tlc.SPEC_DIR, s + ".tla")).read() and ", TLAPS" in open(os.path.join(tlc.SPEC_DIR, s + ".tla")).read()]
+for s in proofs:  # proof modules (EXTENDS TLAPS) are checked by the proof manager, not by SANY alone
+    p = subprocess.run(["tlapm", "--cleanfp", s + ".tla"], cwd=tlc.SPEC_DIR, stdout=subprocess.PIPE, stderr=subprocess.STDOUT, text=True)
+    if "obligations proved" not in p.stdout:
+        print(p.stdout[-2000:]); sys.exit(f"tlapm failed on {s}")
+    print(s, p.stdout.strip().splitlines()[-1])
+for s in [x for x in specs if x not in proofs]:
     p = subprocess.run(["tla-sany", s + ".tla"], cwd=tlc.SPEC_DIR, stdout=subprocess.PIPE, stderr=subprocess.STDOUT, text=True)
     if "Semantic errors" in p.stdout or "Parse Error" in p.stdout or p.returncode != 0:
         print(p.stdout[-2000:]); sys.exit(f"SANY failed on {s}")
